@@ -349,6 +349,10 @@ func (g *Gen) noteArgEscape(c *FnCtx, s *summary, a ssa.Value) {
 
 func (g *Gen) noteExternal(c *FnCtx, s *summary, callee *ssa.Function, cc *ssa.CallCommon) {
 	name := callee.String()
+	if blockingExternals[name] || name == "(*sync.Cond).Wait" {
+		// for the callers of the enclosing function this is a blocking operation
+		s.blocks = true
+	}
 	if m, ok := libModels[name]; ok {
 		if m.blocks {
 			s.blocks = true
@@ -416,6 +420,22 @@ type libModel struct {
 }
 
 var libModels map[string]*libModel
+
+// external functions that block on the network (lock.block: not while holding a lock)
+var blockingExternals = map[string]bool{
+	"(*net.Dialer).Dial":        true,
+	"(*net.Dialer).DialContext": true,
+	"net.Dial":                  true,
+	"crypto/tls.DialWithDialer": true,
+	"crypto/tls.Dial":           true,
+	"(*net.TCPListener).Accept": true,
+	"(*net.TCPListener).AcceptTCP": true,
+	"(*net.UnixListener).Accept":   true,
+	"(*net.UnixListener).AcceptUnix": true,
+	"(*github.com/gorilla/websocket.Dialer).Dial": true,
+	"(*github.com/gorilla/websocket.Conn).ReadMessage": true,
+	"io.ReadFull":               true,
+}
 
 func init() {
 	libModels = map[string]*libModel{
@@ -652,12 +672,12 @@ func (t *fnTrans) invokeCall(in ssa.Instruction, cc *ssa.CallCommon, res ssa.Val
 	blocks := false
 	for _, f := range tgts {
 		s := t.g.summaries[f]
+		if s != nil && s.blocks {
+			blocks = true
+		}
 		if s == nil || s.all {
 			all = true
 			continue
-		}
-		if s.blocks {
-			blocks = true
 		}
 		for v := range s.vars {
 			vars[v] = true
@@ -680,6 +700,9 @@ func (t *fnTrans) invokeCall(in ssa.Instruction, cc *ssa.CallCommon, res ssa.Val
 }
 
 func (t *fnTrans) externalCall(in ssa.Instruction, name string, cc *ssa.CallCommon, res ssa.Value) {
+	if blockingExternals[name] {
+		t.blockCheck(in.Pos(), "call:"+name)
+	}
 	s := &summary{vars: map[string]bool{}}
 	for _, a := range cc.Args {
 		t.g.noteArgEscape(t.c, s, a)
@@ -1279,7 +1302,16 @@ func (t *fnTrans) selectInstr(in *ssa.Select) {
 		t.blockCheck(in.Pos(), "select")
 	}
 	site := t.sites[in]
+	var cases []selCase
+	for _, st := range in.States {
+		cases = append(cases, selCase{send: st.Dir == types.SendOnly, ch: t.val(st.Chan), desc: t.describe(st.Chan)})
+	}
+	t.curSel = cases
 	if site != "" {
+		if t.selCases == nil {
+			t.selCases = map[string][]selCase{}
+		}
+		t.selCases[site] = cases
 		t.siteBefore(site, in, nil)
 	}
 	t.lastSel = idx
@@ -1324,6 +1356,12 @@ func (t *fnTrans) selectInstr(in *ssa.Select) {
 	if site != "" {
 		t.siteAfter(site, in, nil, nil)
 	}
+}
+
+type selCase struct {
+	send bool
+	ch   string
+	desc string
 }
 
 func (t *fnTrans) goStmt(in *ssa.Go) {
